@@ -32,7 +32,8 @@ def _worker_chunk(args):
             "run_seed": rs,
             "digest": rec["digest"],
             "sig": st["sig"],
-            "nontrivial": core.nontrivial(rec["ops"], eng.CHANGE_KINDS, eng.OBSERVE_KINDS),
+            "nontrivial": (eng.is_nontrivial(rec["ops"]) if hasattr(eng, "is_nontrivial") else
+                           core.nontrivial(rec["ops"], eng.CHANGE_KINDS, eng.OBSERVE_KINDS)),
             "steps": st["steps"],
             "observations": st["observations"],
             "probes": st["probes"],
